@@ -140,6 +140,8 @@ type Enc struct {
 	roArrays   []roArray
 	genMerge   map[string][]edge
 	shadowParams map[string]bool
+	loopPointKeys map[string][]string
+	loopPointSort map[string]string
 	frameRecv  *Val
 	frameRecvT types.Type
 }
@@ -401,6 +403,8 @@ func isHeapKey(k string) bool {
 
 // havocAll forgets every heap fact: a new generation of heap names.
 func (e *Enc) havocAll(st *State, g string) {
+	e.sorts["hv:all"] = SBool
+	st.m["hv:all"] = "true"
 	// private escaping locals (captured by closures of this function only) keep their value
 	type saved struct {
 		a   *ssa.Alloc
@@ -751,6 +755,9 @@ func (e *Enc) loopWrites(li *loopInfo) (cells map[*ssa.Alloc]bool, heapAll bool,
 	cells = map[*ssa.Alloc]bool{}
 	heapKeys = map[string]string{} // key -> sort
 	iters = map[ssa.Value]bool{}
+	pointKeys := map[string][]string{}
+	pointSort := map[string]string{}
+	e.loopPointKeys, e.loopPointSort = pointKeys, pointSort
 	addPtr := func(t types.Type) {
 		if st, ok := t.Underlying().(*types.Struct); ok {
 			for i := 0; i < st.NumFields(); i++ {
@@ -778,6 +785,25 @@ func (e *Enc) loopWrites(li *loopInfo) (cells map[*ssa.Alloc]bool, heapAll bool,
 		heapKeys["map.card"] = "(Array Int Int)"
 		for j, so := range flatten(mt.Elem()) {
 			heapKeys[mapValKey(mt, j)] = "(Array Int (Array Int " + so + "))"
+		}
+	}
+	addSpecModifies := func(spec *FuncSpec) {
+		for _, m := range spec.Modifies {
+			switch {
+			case m == "all" || strings.HasPrefix(m, "*"):
+				heapAll = true
+			case m == "alloc":
+				heapKeys["alloc"] = SInt
+			case m == "nothing" || m == "":
+			case strings.HasPrefix(m, "map:"):
+				for _, ks := range e.resolveMapItem(strings.TrimPrefix(m, "map:")) {
+					heapKeys[ks[0]] = ks[1]
+				}
+			default:
+				for _, ks := range e.resolveHeapItem(m) {
+					heapKeys[ks[0]] = ks[1]
+				}
+			}
 		}
 	}
 	for b := range li.blocks {
@@ -816,6 +842,18 @@ func (e *Enc) loopWrites(li *loopInfo) (cells map[*ssa.Alloc]bool, heapAll bool,
 					}
 				case *ssa.Alloc:
 					addPtr(ad.Type().Underlying().(*types.Pointer).Elem())
+				case *ssa.FreeVar:
+					// assignment to a captured variable: only that cell changes
+					et := ad.Type().Underlying().(*types.Pointer).Elem()
+					if _, isSt := et.Underlying().(*types.Struct); isSt {
+						addPtr(et)
+					} else {
+						for j, so := range flatten(et) {
+							k := ptrKey(et, j)
+							pointKeys[k] = append(pointKeys[k], e.regs[ad].C[0])
+							pointSort[k] = so
+						}
+					}
 				default:
 					heapAll = true
 				}
@@ -868,24 +906,21 @@ func (e *Enc) loopWrites(li *loopInfo) (cells map[*ssa.Alloc]bool, heapAll bool,
 					heapAll = true
 					break
 				}
-				for _, m := range spec.Modifies {
-					switch {
-					case m == "all" || strings.HasPrefix(m, "*"):
-						heapAll = true
-					case m == "alloc":
-						heapKeys["alloc"] = SInt
-					case m == "nothing" || m == "":
-					case strings.HasPrefix(m, "map:"):
-						for _, ks := range e.resolveMapItem(strings.TrimPrefix(m, "map:")) {
-							heapKeys[ks[0]] = ks[1]
-						}
-					default:
-						for _, ks := range e.resolveHeapItem(m) {
-							heapKeys[ks[0]] = ks[1]
-						}
+				addSpecModifies(spec)
+			case *ssa.UnOp:
+				if ins.Op == token.ARROW {
+					if spec := e.chanSpec("recv", ins); spec != nil {
+						addSpecModifies(spec)
 					}
 				}
-			case *ssa.Defer, *ssa.Go, *ssa.Send:
+			case *ssa.Send:
+				if spec := e.chanSpec("send", ins); spec != nil {
+					addSpecModifies(spec)
+				}
+			case *ssa.Select:
+			case *ssa.MakeChan:
+				heapKeys["alloc"] = SInt
+			case *ssa.Defer, *ssa.Go:
 				heapAll = true
 			case *ssa.Alloc:
 				if ins.Heap {
@@ -1043,6 +1078,33 @@ func (e *Enc) Encode() {
 		e.assume("true", e.typeFacts(v))
 		e.assume("true", not(eq(v.C[0], "0")))
 	}
+	if p := fn.Parent(); p != nil && len(fn.FreeVars) > 1 {
+		// captured variables are distinct variables, hence distinct cells: assumed when every closure
+		// creation site in the parent binds pairwise different SSA values (checked here)
+		distinctOK := true
+		for _, b := range p.Blocks {
+			for _, ins := range b.Instrs {
+				if mc, ok := ins.(*ssa.MakeClosure); ok && mc.Fn == ssa.Value(fn) {
+					seen := map[ssa.Value]bool{}
+					for _, bnd := range mc.Bindings {
+						_, isAlloc := bnd.(*ssa.Alloc)
+						_, isFV := bnd.(*ssa.FreeVar)
+						if seen[bnd] || !(isAlloc || isFV) {
+							distinctOK = false
+						}
+						seen[bnd] = true
+					}
+				}
+			}
+		}
+		if distinctOK {
+			var refs []string
+			for _, fv := range fn.FreeVars {
+				refs = append(refs, e.regs[fv].C[0])
+			}
+			e.assume("true", "(distinct "+strings.Join(refs, " ")+")")
+		}
+	}
 	if p := fn.Parent(); p != nil {
 		// captured variables whose cell is private to the parent and its closures, and that this
 		// closure does not assign, keep their value across calls to other code
@@ -1065,6 +1127,8 @@ func (e *Enc) Encode() {
 	}
 	st.m["alloc"] = e.heapKey(st, "alloc", SInt)
 	e.assume("true", app("<", "0", st.m["alloc"]))
+	e.sorts["hv:all"] = SBool
+	st.m["hv:all"] = "false"
 	e.monInit(st)
 	e.entryCtx = &Ctx{E: e, Vars: map[string]Val{}, St: e.entrySt, where: e.key + " old()"}
 	for k, v := range e.paramVals {
@@ -1268,6 +1332,22 @@ func (e *Enc) block(b *ssa.BasicBlock) {
 				e.heapKey(st, k, heapKeys[k])
 				st.m[k] = e.fresh("lh."+k, heapKeys[k])
 			}
+			var pk []string
+			for k := range e.loopPointKeys {
+				if _, whole := heapKeys[k]; !whole {
+					pk = append(pk, k)
+				}
+			}
+			sort.Strings(pk)
+			for _, k := range pk {
+				cur := e.heapKey(st, k, "(Array Int "+e.loopPointSort[k]+")")
+				for _, r := range e.loopPointKeys[k] {
+					cur = app("store", cur, r, e.fresh("lp."+k, e.loopPointSort[k]))
+				}
+				n := e.fresh("lh."+k, "(Array Int "+e.loopPointSort[k]+")")
+				e.def(eq(n, cur))
+				st.m[k] = n
+			}
 		}
 		for _, k := range keys {
 			hv := false
@@ -1465,6 +1545,7 @@ func (e *Enc) finish() {
 			for i, en := range e.spec.Ensures {
 				e.assert(g, "post."+clauseName(en, i), "post", c.boolT(en.Expr), en.Src, fn.Pos())
 			}
+			e.frameObligations(g, st)
 		}
 	}
 	if len(e.panics) > 0 && e.spec != nil && len(e.spec.XEnsures) > 0 {
@@ -1482,6 +1563,145 @@ func (e *Enc) finish() {
 			for i, en := range e.spec.XEnsures {
 				e.assert(p.guard, fmt.Sprintf("xpost.%s@%d", clauseName(en, i), k+1), "xpost", c.boolT(en.Expr), en.Src, pos)
 			}
+		}
+	}
+}
+
+
+// frameObligations: the modifies clause is proved, not assumed. Every heap, ghost and global location
+// that existed at entry and is not named by the clause has its entry value at every normal exit.
+// (Objects allocated by the function are not part of the caller's frame; a closure may assign the
+// captured variables it writes.)
+func (e *Enc) frameObligations(g string, st *State) {
+	if e.spec == nil || e.spec.Trusted || e.spec.NoBody {
+		return
+	}
+	covered := map[string]bool{}
+	all := false
+	for _, m := range e.spec.Modifies {
+		switch {
+		case m == "all":
+			all = true
+		case m == "nothing" || m == "":
+		case m == "alloc":
+			covered["alloc"] = true
+		case strings.HasPrefix(m, "*"):
+			// the object a parameter points to: its type's locations (over-approximation of the frame)
+			v, ok := e.paramVals[m[1:]]
+			if !ok {
+				panic(contractMismatch{"modifies " + m + ": no such parameter"})
+			}
+			t := v.T
+			if _, isI := t.Underlying().(*types.Interface); isI {
+				all = true
+				break
+			}
+			if p, ok := t.Underlying().(*types.Pointer); ok {
+				e.objectKeys(p.Elem(), covered)
+			} else {
+				all = true
+			}
+		case strings.HasPrefix(m, "map:"):
+			for _, ks := range e.resolveMapItem(strings.TrimPrefix(m, "map:")) {
+				covered[ks[0]] = true
+			}
+		default:
+			for _, ks := range e.resolveHeapItem(m) {
+				covered[ks[0]] = true
+			}
+		}
+	}
+	if all {
+		return
+	}
+	// a function that takes a monitor's lock (or is entered holding it) lets other threads run:
+	// everything the monitor protects or owns, and the shared fields, may change
+	if e.mon != nil || e.spec.Holds != "" || e.spec.Thread == "any" {
+		for _, m := range e.W.Specs.Monitors {
+			if e.mon != nil || e.spec.Holds != "" {
+				for _, ks := range e.monKeys(m) {
+					covered[ks[0]] = true
+				}
+			}
+			for _, p := range m.Shared {
+				for _, ks := range e.resolveHeapItem(p) {
+					covered[ks[0]] = true
+				}
+			}
+		}
+	}
+	pos := e.fn.Pos()
+	if hv, ok := st.m["hv:all"]; ok && hv != "false" {
+		e.assert(g, "frame.all", "frame", not(hv), "the function (or a loop it cannot summarise) may modify any location: its contract must say `modifies all`", pos)
+	}
+	// captured variables this closure assigns
+	capRefs := map[string][]string{}
+	for _, fv := range e.fn.FreeVars {
+		if closureWrites(e.fn, fv) {
+			et := fv.Type().Underlying().(*types.Pointer).Elem()
+			if _, isSt := et.Underlying().(*types.Struct); isSt {
+				tmp := map[string]bool{}
+				e.objectKeys(et, tmp)
+				for k := range tmp {
+					capRefs[k] = append(capRefs[k], e.regs[fv].C[0])
+				}
+				continue
+			}
+			for j := range flatten(et) {
+				capRefs[ptrKey(et, j)] = append(capRefs[ptrKey(et, j)], e.regs[fv].C[0])
+			}
+		}
+	}
+	alloc0 := e.entrySt.m["alloc"]
+	var keys []string
+	for k := range st.m {
+		if (isHeapKey(k) || k == "alloc") && !covered[k] {
+			keys = append(keys, k)
+		}
+	}
+	sort.Strings(keys)
+	for _, k := range keys {
+		so := e.sortOfKey(k)
+		now := st.m[k]
+		was := e.heapKey(e.entrySt, k, so)
+		if now == was {
+			continue
+		}
+		name := "frame." + sanitize(strings.TrimSuffix(strings.TrimPrefix(strings.TrimPrefix(strings.TrimPrefix(strings.TrimPrefix(k, "h:"), "g:"), "p:"), "m:"), ":0"))
+		src := "not in the modifies clause: " + k
+		if k == "alloc" || strings.HasPrefix(k, "g:") {
+			e.assert(g, name, "frame", eq(now, was), src, pos)
+			continue
+		}
+		r := e.freshName("fr")
+		oldref := or(and(app("<", "0", r), app("<", r, alloc0)),
+			and(app("<", r, "0"), app("<", "0", app("subBase", r)), app("<", app("subBase", r), alloc0)),
+			and(app("<", r, "0"), app("<", app("subBase", r), "0"), app("<", "0", app("subBase", app("subBase", r))), app("<", app("subBase", app("subBase", r)), alloc0)))
+		conds := []string{oldref}
+		for _, c := range capRefs[k] {
+			conds = append(conds, not(eq(r, c)))
+		}
+		e.assert(g, name, "frame", fmt.Sprintf("(forall ((%s Int)) (=> %s (= (select %s %s) (select %s %s))))", r, and(conds...), now, r, was, r), src, pos)
+	}
+}
+
+// objectKeys adds the state keys that hold an object of type t.
+func (e *Enc) objectKeys(t types.Type, out map[string]bool) {
+	st, ok := t.Underlying().(*types.Struct)
+	if !ok {
+		for j := range flatten(t) {
+			out[ptrKey(t, j)] = true
+		}
+		return
+	}
+	for i := 0; i < st.NumFields(); i++ {
+		ft := st.Field(i).Type()
+		if _, nested := ft.Underlying().(*types.Struct); nested {
+			e.objectKeys(ft, out)
+			continue
+		}
+		for j := range flatten(ft) {
+			out[fieldKey(t, i, j)] = true
 		}
 	}
 }
